@@ -52,6 +52,19 @@ impl Storage {
             return Ok(installation.clone());
         }
 
+        // The name becomes a directory below `base_path`: reject anything that would not
+        // stay there (empty, absolute, `.` or `..` components).
+        let relative = std::path::Path::new(name);
+        if name.is_empty()
+            || !relative
+                .components()
+                .all(|c| matches!(c, std::path::Component::Normal(_)))
+        {
+            return Err(crate::StorageError::Config(format!(
+                "invalid installation name: {name:?}"
+            )));
+        }
+
         let installation_path = self.base_path.join(name);
         let installation = Arc::new(Installation::open(installation_path)?);
 
